@@ -12,8 +12,8 @@ class Zygote(object):
                                   stdin=subprocess.PIPE, stdout=subprocess.PIPE, text=True, cwd=env.ROOT)
         self.jobs = 0
 
-    def run(self, table, probes):
-        self.p.stdin.write(json.dumps({"table": table, "probes": probes}) + "\n")
+    def run(self, table, probes, isolate=False):
+        self.p.stdin.write(json.dumps({"table": table, "probes": probes, "isolate": isolate}) + "\n")
         self.p.stdin.flush()
         line = self.p.stdout.readline()
         if not line:
